@@ -231,6 +231,10 @@ func structBuildShortcutFact(p *Prog, fi *FuncInfo, at ast.Node) string {
 	if n >= 2 {
 		return ""
 	}
+	// the guard may be a private predicate: with either struct having fields the identity return is unreachable
+	if sf := p.SSAFunc(fi); sf != nil && structIdentityUnreachable(sf, "source.fields") && structIdentityUnreachable(sf, "target.fields") {
+		return ""
+	}
 	return "Struct.Build returns the source expression outside the `both structs have zero fields` shortcut: struct values containing pointers/slices/maps would be shared"
 }
 
